@@ -7,6 +7,8 @@
                = AES | DES | SERPENT   the library's ciphers: Model.Mode over Model.Aes / Model.Des / Model.Serpent (model column),
                                        Spec.Mode over FIPS 197 / FIPS 46-3 / the Serpent submission (spec column); key = x<hex>
                = TDEA                  key = x<K1> | x<K1>,x<K2> | x<K1>,x<K2>,x<K3>   (the calling forms of TDEA(K1,K2,K3))
+               = THREEFISH             key = x<key>,x<tweak>   (`Threefish(key,tweak)`), blockbytes = 32 | 64 | 128: Model.Mode over
+                                       Model.Threefish (model column), Spec.Mode over Threefish-256/512/1024 of Skein 1.3 (spec column)
       verb er = `enc(M);dec(enc(M))` (one encryption, one decryption with an equally configured object)
       verb xd = decryption, with the padding scheme, of the nopadding-encryption of <msg> (= unpad(<msg>): good and damaged paddings)
     modert <mode> <cipher name> <blockbytes> <key> <iv or -> <padding> <msg>
@@ -180,6 +182,12 @@ def instance? (cid : String) (n : Nat) (keys : List (List Nat)) : Option (Except
         let (a, b, c) := ko.bundle
         if a.length == 8 && b.length == 8 && c.length == 8 && isB a && isB b && isB c then some ko else none
       some (Mode.Ciphers.tdea? k1 K2 K3, ko?.map Spec.ModeCiphers.sp80067)
+  | "THREEFISH", [key, tweak] =>
+    -- the block length token is the one a well-formed key of that cipher has; a key of another length must be refused
+    if ¬ (n = 32 ∨ n = 64 ∨ n = 128) then none else
+    if (key.length = 32 ∨ key.length = 64 ∨ key.length = 128) ∧ key.length ≠ n then none else
+    some (Mode.Ciphers.threefish? key tweak,
+      if key.length == n && tweak.length == 16 && isB key && isB tweak then some (Spec.ModeCiphers.threefish key tweak) else none)
   | _, [key] =>
     match Toy.fns? cid key, Toy.cipher? cid n key with
     | some (E, D), some c => some (.ok c, if key.length == n then some ⟨n, E, D⟩ else none)
